@@ -77,6 +77,11 @@ impl Narrowing {
         }
     }
 
+    /// Whether a narrowing has been recorded and is still usable for a complement.
+    pub fn is_active(&self) -> bool {
+        matches!(self, Narrowing::Active { .. })
+    }
+
     /// Mark that complement narrowing is disabled (non-type failable term encountered).
     pub fn disable(&mut self) {
         *self = Narrowing::Disabled;
